@@ -34,6 +34,26 @@ C07.drain    typestate of the reader's cursor: next_item() is only called when
              LineFeed), never right after a fast-path reader stopped early or
              right after require_token(): the "token not completely read"
              assertion cannot fire from the reader's own call sequences.
+C07.delim    the cursor is never moved past a symbol that was found not to be a
+             word character: the delimiter behind an unquoted token (paren,
+             semicolon, quote, line feed, blank) is left for the item
+             categoriser to interpret.
+C07.len      a running length check in scan_name that ends in `bad name`
+             rejects exactly relative lengths of 255 and more (a 255-octet
+             absolute name is legal, RFC 1035 2.3.4): the absolute spelling is
+             not bounded tighter than Name's own limit, which bounds the
+             relative spelling through chain().
+C07.quote    the closing quote is not part of a token's value: a value whose
+             end is taken from the cursor after a fast-path reader (which
+             consumes the closing quote when it ends a quoted token) either
+             is known not to have ended there or has the `cursor - 1`
+             alternative for quoted tokens (scan_octets, scan_svcb_octets and
+             scan_string agree).
+C07.ovf      no overflow-checked arithmetic on a fixed-width integer narrower
+             than usize fed by token content in any `scan` function or closure
+             (decimal accumulators use checked_mul *and* checked_add): a
+             number that overflows in its last digit is an error, not a panic
+             (debug) or a wrapped value (release).
 C07.panic    no unwrap/expect of a parse / conversion error and no explicit
              panic macro under a branch on file content in the reader.
 """
@@ -59,6 +79,10 @@ def run(ctx):
     rule_panic(ctx, F)
     rule_token(ctx, F)
     rule_drain(ctx, F)
+    rule_delim(ctx, F)
+    rule_len(ctx, F)
+    rule_quote(ctx, F)
+    rule_ovf(ctx, F)
     rule_digit(ctx, F)
     rule_fast(ctx, F)
 
@@ -458,6 +482,233 @@ def rule_drain(ctx, F):
                    "its callers are checked against is stale" % (name, shape), b.where())
 
 
+def _peek_call(term):
+    """the outermost Symbol::from_slice_index call a term is derived from"""
+    for s in walk(term):
+        if s[0] == "call" and s[1] and s[1].endswith("Symbol::from_slice_index"):
+            return s
+    return None
+
+
+def rule_delim(ctx, F):
+    R = "C07.delim"
+    ctx.floor(R, 5)
+    for p, b in sorted(F.bodies.items()):
+        if not re.match(r"^zonefile::inplace::SourceBuf::", p) or "::test" in p:
+            continue
+        n = 0
+        for bi in sorted(b.reachable_blocks()):
+            for st in b.blocks[bi]["s"]:
+                if st[0] != "=" or len(st[1]) < 2:
+                    continue
+                last = st[1][-1]
+                if not (isinstance(last, (list, tuple)) and last[0] == "." and last[2] == "start"):
+                    continue
+                val = b.term_of_rvalue(st[2])
+                pk = _peek_call(val)
+                if pk is None:
+                    continue            # start += 1 and friends: not the end of a peeked symbol
+                n += 1
+                bad = None
+                for tt, v, _ in facts_at(b, bi, F):
+                    ts = strip(tt, calls=False)
+                    for f, fv in [(ts, v)] + ([(ts[2], not v)] if ts[0] == "un" and ts[1] == "Not" and isinstance(v, bool) else []):
+                        if f[0] == "call" and f[1] and f[1].endswith("Symbol::is_word_char") and fv is False and f[3]:
+                            sk = _peek_call(f[3][0])
+                            if sk is not None and sk[5] == pk[5]:
+                                bad = show(deep_strip(f))
+                ctx.ob(R, b, "cursor store #%d to the end of a peeked symbol" % n, bad is None,
+                       "%s moves the cursor past a symbol it has just found not to be a word character: the delimiter "
+                       "(paren, semicolon, quote, line feed) is consumed without being interpreted by next_item"
+                       % p.split("::")[-1], b.where(bi), detail=bad)
+
+
+def _threshold(f, v):
+    """smallest X for which the fact `f == v` holds, for f = cmp(X + c, K) in any spelling; (X term, value) or None"""
+    if f[0] != "bin" or f[1] not in ("Gt", "Ge", "Lt", "Le") or not isinstance(v, bool):
+        return None
+    op, a, c = f[1], deep_strip(f[2]), deep_strip(f[3])
+    ka, kc = const_value(a), const_value(c)
+    if (ka is None) == (kc is None):
+        return None
+    if ka is not None:                      # K op X  ->  X op' K
+        op = {"Gt": "Lt", "Ge": "Le", "Lt": "Gt", "Le": "Ge"}[op]
+        a, kc = c, ka
+    if not v:
+        op = {"Gt": "Le", "Ge": "Lt", "Lt": "Ge", "Le": "Gt"}[op]
+    if op not in ("Gt", "Ge"):
+        return None                         # the fact bounds X from above: not a "too long" test
+    thr = kc + 1 if op == "Gt" else kc
+    while a[0] == "bin" and a[1] in ("Add", "Sub") and const_value(deep_strip(a[3])) is not None:
+        k = const_value(deep_strip(a[3]))
+        thr = thr - k if a[1] == "Add" else thr + k
+        a = deep_strip(a[2])
+    return a, thr
+
+
+def _raw_cmp(b, sw):
+    """the comparison a bool switch tests, with its variable side left opaque.  Terms resolve a local to its
+    defining statement; the running length is a local updated through `&mut write` by convert_label, so its
+    defining statement (`let mut write = 0`) is not its value at the comparison."""
+    d = b.blocks[sw]["t"]["d"]
+    if d[0] not in ("c", "m") or len(d[1]) != 1:
+        return None
+    ds = b.defs().get(d[1][0], [])
+    if len(ds) != 1 or ds[0][0] != "stmt" or ds[0][3][0] != "bin":
+        return None
+    rv = ds[0][3]
+
+    def side(op, depth=0):
+        if op[0] == "k":
+            return b.term_of_operand(op)
+        if op[0] in ("c", "m") and len(op[1]) == 1 and depth < 3:
+            dd = b.defs().get(op[1][0], [])
+            if len(dd) == 1 and dd[0][0] == "stmt":
+                r = dd[0][3]
+                if r[0] == "bin" and r[1] in ("Add", "Sub", "AddWithOverflow", "SubWithOverflow") and r[3][0] == "k":
+                    return ("bin", r[1].replace("WithOverflow", ""), side(r[2], depth + 1), b.term_of_operand(r[3]))
+                if r[0] == "use" and r[1][0] in ("c", "m") and len(r[1][1]) == 1 and op[1][0] > b.nargs and b.var_name(op[1][0]) is None:
+                    return side(r[1], depth + 1)
+            return ("local", op[1][0])
+        if op[0] in ("c", "m") and len(op[1]) == 2 and op[1][1][0] == "." and depth < 3:
+            # (checked add).0
+            dd = b.defs().get(op[1][0], [])
+            if len(dd) == 1 and dd[0][0] == "stmt" and dd[0][3][0] == "bin" and dd[0][3][1].endswith("WithOverflow") and dd[0][3][3][0] == "k":
+                r = dd[0][3]
+                return ("bin", r[1].replace("WithOverflow", ""), side(r[2], depth + 1), b.term_of_operand(r[3]))
+        return ("local", -1)
+
+    return ("bin", rv[1], side(rv[2]), side(rv[3]))
+
+
+def rule_len(ctx, F):
+    R = "C07.len"
+    b = _one(F, r"^<zonefile::inplace::EntryScanner<'_> as base::scan::Scanner>::scan_name$")
+    if not ctx.anchor(R, "EntryScanner::scan_name", b):
+        return
+    bf = BranchFacts(b, F)
+    n = 0
+    for sw in sorted(b.reachable_blocks()):
+        if b.blocks[sw]["t"]["k"] != "switch":
+            continue
+        for lab, (tt, v) in bf.edge_facts(sw).items():
+            tgt = b.edge_target(sw, lab)
+            # the edge goes straight to `return Err(bad_name())`
+            hops = 0
+            while tgt is not None and hops < 4 and b.blocks[tgt]["t"]["k"] == "goto" and not b.blocks[tgt]["s"]:
+                tgt = b.blocks[tgt]["t"]["t"]
+                hops += 1
+            tt_ = b.blocks[tgt]["t"] if tgt is not None else None
+            if not tt_ or tt_["k"] != "call" or not (tt_["fn"] or "").endswith("EntryError::bad_name"):
+                continue
+            th = _threshold(_raw_cmp(b, sw) or deep_strip(tt), v)
+            if th is None:
+                continue
+            n += 1
+            ctx.ob(R, b, "length check #%d rejects from 255 octets on" % n, th[1] == 255,
+                   "scan_name answers `bad name` as soon as the assembled relative name reaches %d octets; the longest "
+                   "legal absolute name has 254 octets before the root label, and the relative spelling of the same name "
+                   "is bounded by chain() at 255 in total: the two spellings disagree" % th[1], b.where(sw),
+                   detail="%s, error from %d" % (show(deep_strip(tt)), th[1]))
+    ctx.ob(R, b, "scanned", True, nontrivial=False, detail="%d running length check(s) found" % n)
+
+
+def _alts(t):
+    t = strip(t, calls=False)
+    if t[0] == "phi":
+        out = []
+        for a in t[2]:
+            out.extend(_alts(a))
+        return out
+    return [t]
+
+
+def rule_quote(ctx, F):
+    R = "C07.quote"
+    ctx.floor(R, 5)
+    for p, b in sorted(F.bodies.items()):
+        if not re.match(r"^<?zonefile::inplace::EntryScanner", p) or "::test" in p or b.kind == "Closure":
+            continue
+        fast = [bi for bi, t in b.calls() if re.search(r"SourceBuf::next_(ascii|char)_symbol$", t["fn"] or "")]
+        if not fast:
+            continue
+        n = 0
+        for bi, t in b.calls():
+            if not (t["fn"] or "").endswith("SourceBuf::split_to") or len(t["args"]) < 2:
+                continue
+            alts = [deep_strip(a) for a in _alts(b.term_of_operand(t["args"][1]))]
+            shown = [show(a) for a in alts]
+            bare = any(re.search(r"\.buf\.start$", s) and not s.startswith(("Sub(", "Add(")) for s in shown)
+            if not bare:
+                continue
+            n += 1
+            sub1 = any(re.match(r"^Sub\((_\d+|\S*\.buf\.start), 1\)$", s) for s in shown)
+            not_ended = False
+            for tt, v, (sw, lab) in facts_at(b, bi, F):
+                s = show(deep_strip(tt))
+                if re.search(r"PartialEq>::eq\(\S*\.cat, adt:\S*ItemCat:None\{\}\)$", s) and v is False:
+                    c = _core_call(tt)
+                    if c is not None and any(c[5] in b.reach_from(f) for f in fast):
+                        not_ended = True
+                if s.endswith(".cat") and isinstance(v, tuple) and (v == ("notvariant", ("None",)) or (v[0] == "variant" and v[1] in ("Quoted", "Unquoted"))):
+                    if any(sw in b.reach_from(f) for f in fast):
+                        not_ended = True
+            ctx.ob(R, b, "value extent #%d taken from the cursor" % n, sub1 or not_ended,
+                   "%s ends a value at the cursor after a fast-path read: when that read ended a quoted token the cursor "
+                   "is already past the closing quote, which becomes part of the value (the quoted and the unquoted "
+                   "spelling of the same token differ)" % p.split("::")[-1], b.where(bi),
+                   detail="extent alternatives: %s; %s" % (" | ".join(s[:60] for s in shown),
+                                                           "token known not to have ended" if not_ended else "has cursor-1 alternative" if sub1 else "neither"))
+
+
+NARROW = re.compile(r"^[ui](8|16|32|64|128)$")
+
+
+def rule_ovf(ctx, F):
+    R = "C07.ovf"
+    scope = 0
+    n = 0
+    per = {}
+    for p, b in sorted(F.bodies.items()):
+        if "::test" in p or not re.search(r"::scan\w*(::<[^>]*>)?(::\{closure#\d+\})*$", p):
+            continue
+        if re.match(r"^<?zonefile::inplace::", p):
+            continue        # cursor arithmetic on usize, bounded by the buffer
+        scope += 1
+        for bi in sorted(b.reachable_blocks()):
+            t = b.blocks[bi]["t"]
+            if t["k"] != "assert" or t["msg"][0] != "overflow" or t["msg"][1] not in ("Add", "Sub", "Mul"):
+                continue
+            ops = [t["msg"][2], t["msg"][3]]
+            tys = []
+            for o in ops:
+                if o[0] == "k":
+                    tys.append(o[1])
+                elif o[0] in ("c", "m"):
+                    tys.append(b.locals[o[1][0]] if len(o[1]) == 1 else None)
+            if not any(ty and NARROW.match(ty) for ty in tys) and not all(ty is None for ty in tys):
+                continue
+            if all(o[0] == "k" for o in ops):
+                continue
+            terms = [deep_strip(b.term_of_operand(o)) for o in ops]
+            # both operands bounded by construction: a digit (< radix) times / plus a constant
+            def small(x):
+                if const_value(x) is not None:
+                    return True
+                c = _core_call(x)
+                return c is not None and re.search(r"::(to_digit|into_digit)$", c[1]) is not None and x[0] != "bin"
+            if all(small(x) for x in terms):
+                continue
+            n += 1
+            per[p] = per.get(p, 0) + 1
+            ctx.ob(R, b, "%s#%d on a narrow integer" % (t["msg"][1], per[p]), False,
+                   "overflow-checked %s on a fixed-width integer in a scan function: a token whose value overflows here "
+                   "panics the reader in debug builds and wraps in release builds instead of giving an error"
+                   % t["msg"][1], b.where(bi), detail=" , ".join(show(x)[:80] for x in terms))
+    ctx.ob(R, "scan functions", "scanned", scope >= 150, "only %d scan functions/closures found: the scope of the rule "
+           "collapsed" % scope, nontrivial=False, detail="%d scan functions and closures examined, %d narrow arithmetic site(s)" % (scope, n))
+
+
 AUDIT = {
     ("scan_at_record", "chain"): "chaining the empty relative name onto an origin cannot exceed the name length limit",
     ("scan_name", "chain"): "RelativeName::empty().chain(Name::root()): constant operands, cannot fail",
@@ -567,3 +818,34 @@ def rule_fast(ctx, F):
     qstops = set(range(256)) - passed["Quoted"]
     ctx.ob(R, b, "in a quoted token the fast path stops at the quote and the escape character", {0x22, 0x5C} <= qstops,
            "next_ascii_symbol passes `\"` or `\\` through inside a quoted token")
+    # the octets the fast path hands out as token characters must be ones the slow path
+    # (Symbol::Char(ch).into_octet / into_ascii) converts as well: otherwise the same octet is accepted
+    # in a token without an escape and rejected in a token with one
+    for conv in ("into_octet", "into_ascii"):
+        cb = _one(F, r"^base::scan::Symbol::%s$" % conv)
+        if not ctx.anchor(R, "Symbol::%s" % conv, cb):
+            continue
+        cparts = c03.byte_partition(cb, F, lambda t: show(deep_strip(t)) == "(arg1 as Char).0")
+        okset = set()
+        for octs, leaf, path in cparts:
+            blocks = list(path) + [leaf]
+            isok = any(st[0] == "=" and st[1] == [0] and st[2][0] == "agg" and st[2][1][0] == "adt" and st[2][1][2] == "Ok"
+                       for bb in blocks for st in cb.blocks[bb]["s"])
+            on_char = False
+            cbf = BranchFacts(cb, F)
+            for i, bb in enumerate(blocks[:-1]):
+                if cb.blocks[bb]["t"]["k"] == "switch":
+                    ef = cbf.edge_facts(bb)
+                    for s_, lab in cb.succs(bb):
+                        if s_ == blocks[i + 1] and lab in ef and ef[lab][1] == ("variant", "Char"):
+                            on_char = True
+            if isok and on_char:
+                okset |= octs
+        if not ctx.anchor(R, "octets Symbol::%s accepts as plain characters" % conv, len(okset) > 0x40, cb.where()):
+            continue
+        for cat in ("Unquoted", "Quoted"):
+            extra = passed[cat] - okset
+            ctx.ob(R, b, "%s: fast-path characters are characters Symbol::%s accepts" % (cat.lower(), conv), not extra,
+                   "in a%s token SourceBuf::next_ascii_symbol passes %s through as token characters, but the escape-decoding "
+                   "path rejects them (Symbol::%s): the same octet is accepted in a token without an escape and "
+                   "`bad symbol` in a token with one" % ("n unquoted" if cat == "Unquoted" else " quoted", _fmt(extra), conv))
